@@ -28,11 +28,13 @@
 
 const char *verif_harness = "radix_conc";
 using namespace verif;
+void verif_case_reset() { vclock::reset(); }
 
 namespace {
 struct Val {
 	uint64_t key, a, b; uint32_t chk;
-	Val(uint64_t k, uint64_t g) : key(k), a(g * 0x9E3779B97F4A7C15ull), b(~k), chk((uint32_t)(k ^ (g * 0x9E3779B97F4A7C15ull) ^ 0xC0DEC0DE)) {}
+	vclock::Stamp born;       // position of the constructing thread: a reader must have acquired it (vclock.hpp)
+	Val(uint64_t k, uint64_t g) : key(k), a(g * 0x9E3779B97F4A7C15ull), b(~k), chk((uint32_t)(k ^ (g * 0x9E3779B97F4A7C15ull) ^ 0xC0DEC0DE)), born(vclock::now()) {}
 	bool ok() const { return b == ~key && chk == (uint32_t)(key ^ a ^ 0xC0DEC0DE); }
 };
 struct plain_alloc {     // only the writer allocates
@@ -116,11 +118,13 @@ void verif_case(Ctx &c) {
 				Val *p = tree->find(keys[ki]);
 				// validate at once, with plain reads: they race with the writer's initialisation unless every publication is release/acquire
 				bool bad_key = false, bad_body = false;
-				if(p) { bad_key = p->key != keys[ki]; bad_body = !p->ok(); }
+				bool no_hb = false;
+				if(p) { bad_key = p->key != keys[ki]; bad_body = !p->ok(); no_hb = !vclock::hb(p->born); }
 				{ dsched::Ignore ig;
 				  if(writer_in_insert) reader_steps_during_insert++;
 				  char buf[200];
 				  if(p && bad_key && error.empty()) { snprintf(buf, sizeof buf, "find(k%d = %#llx) returned a value stored under key %#llx", ki, (unsigned long long)keys[ki], (unsigned long long)p->key); error = buf; }
+				  if(p && no_hb && error.empty()) { snprintf(buf, sizeof buf, "find(k%d = %#llx) returned a value whose construction does not happen before the read: no acquire load of the reader read from a release sequence (C++20 [intro.races]/5) that follows the construction", ki, (unsigned long long)keys[ki]); error = buf; }
 				  if(p && !bad_key && bad_body && error.empty()) { snprintf(buf, sizeof buf, "find(k%d = %#llx) returned a value that is not fully initialised", ki, (unsigned long long)keys[ki]); error = buf; }
 				  bool still = ks[ki].inserted && !ks[ki].erase_started;
 				  if(stable_before && still && !p && error.empty()) { snprintf(buf, sizeof buf, "find(k%d = %#llx) returned null although the key was present before the call and is not being erased", ki, (unsigned long long)keys[ki]); error = buf; }
